@@ -22,7 +22,7 @@ def run(tier):
     # decided for ALL distances by the Verus unit c08_labels, over the class-encoder contracts proved by the a64p rows
     is_label_row = lambda r: r.endswith(('__fwd', '__bwd', '__far', '__bound'))
     return prop_asm.run(PROP, 'a64', tier, assumptions, samples, not_decided, slow=SLOW_ROWS, extra_units=['a64p'],
-                        extra_steps=prop_asm.verus_unit_step('c08_labels.vspec'), quick_skip=is_label_row)
+                        extra_steps=prop_asm.verus_unit_step('c08_labels.vspec'), quick_skip=is_label_row, quick_share=3)
 
 
 def replay(rp):
